@@ -9,7 +9,7 @@ PROPS = {
         "level": "proof",
         "lean": ["PasfmtModel.Props.C01"],
         "streams": [
-            {"stream": "fmt", "families": ALL_FAMILIES, "quick": 3000, "thorough": 40000, "binding": FMT_BINDING_C01},
+            {"stream": "fmt", "families": ALL_FAMILIES + ",mlsfam,regions", "quick": 3200, "thorough": 40000, "binding": FMT_BINDING_C01},
             {"stream": "lex", "families": ALL_FAMILIES, "quick": 1500, "thorough": 20000, "name": "lexer"},
         ],
         "oracle_prefixes": ["c01", "glue", "lex"],
@@ -20,6 +20,80 @@ PROPS = {
                        "no-dangling-E3 side condition (nd) are evaluated by the Lean driver on every case.",
         "assumptions": ["WrapFrame (wrapper keeps token vector, changes only blanks of contents) - checked per case (wc=1)",
                         "token contents have no dangling E3 byte (consequence of valid UTF-8; checked per case, nd=1)"],
+    },
+    "C02": {
+        "level": "other",
+        "lean": ["PasfmtModel.Props.C02"],
+        "streams": [
+            {"stream": "fmt", "families": "seeds_sample,grammar,layout,regions,mlsfam,marked", "quick": 3000, "thorough": 50000,
+             "binding": ["prec", "out", "*"], "args": {"oracles": "c02"}},
+        ],
+        "oracle_prefixes": ["c02", "glue"],
+        "abnormal_binding": False,
+        "explanation": "Proved on the exact models: after every single-line comment the reconstructor emits a line break for every "
+                       "assignment of counters (safety net), and each content rule is exactly its documented normalisation (keywords "
+                       "lower-cased; directives differ only in ASCII case and keep their length; line comments differ only in "
+                       "blanks). NOT proved: stability of the scanner under re-spacing and the non-gluing property of the spacing "
+                       "table; the re-scan oracle (same token kinds and texts up to the normalisations) runs on every well-formed case.",
+        "assumptions": ["relex_stable / spacing_nonglue are oracle-checked, not theorems (partial)"],
+    },
+    "C03": {
+        "level": "other",
+        "lean": ["PasfmtModel.Props.C03"],
+        "streams": [
+            {"stream": "fmt", "families": "seeds_sample,grammar,layout,regions,mlsfam,marked", "quick": 3000, "thorough": 50000,
+             "binding": ["prec", "out", "*"], "args": {"oracles": "c03"}},
+        ],
+        "oracle_prefixes": ["c03", "glue"],
+        "abnormal_binding": False,
+        "explanation": "Proved: keyword lower-casing, trimming and the blank-line clamp are fixpoints; emitted line breaks are read back "
+                       "as the same count. The composition needs the wrapper to be a function of layout-independent facts (C06) and "
+                       "ReflowFresh (false for child lines: known finding F10): the format-twice oracle runs on every well-formed case.",
+        "assumptions": ["WrapDeterministic, ParserKindsOnly, AllSolved, ReflowFresh are oracle-checked contracts (partial)"],
+    },
+    "C05": {
+        "level": "other",
+        "lean": ["PasfmtModel.Props.C05"],
+        "streams": [
+            {"stream": "fmt", "families": "marked", "quick": 2500, "thorough": 40000, "binding": ["out", "*"], "args": {"oracles": "c05"}},
+        ],
+        "oracle_prefixes": ["c05", "glue"],
+        "abnormal_binding": False,
+        "explanation": "Proved: a token with counters (break, level indentations, no continuation, no spaces) is rendered first on its "
+                       "line after exactly `level` units (exact reconstructor), plus C08's gap/indentation theorems. Which tokens get "
+                       "such counters is grammar knowledge of the parser and the wrapper: checked by the structure oracle using the "
+                       "generator's marks (statement starts and depths, closers, body begins) on every generated program.",
+        "assumptions": ["parser levels and wrapper first-decisions are oracle-checked (partial)"],
+    },
+    "C06": {
+        "level": "other",
+        "lean": ["PasfmtModel.Props.C06"],
+        "streams": [
+            {"stream": "fmt", "families": "relayout", "quick": 2500, "thorough": 40000, "binding": ["pre", "out", "*"], "args": {"oracles": "c06"}},
+        ],
+        "oracle_prefixes": ["c06", "glue"],
+        "abnormal_binding": False,
+        "explanation": "Proved: original whitespace is reduced to (newline count, trailing blank width); after TokenSpacing every "
+                       "token's spacing is independent of the amount of original horizontal whitespace (spacing_layout_invariant, for "
+                       "all kind sequences without inline line comments); the blank-line clamp depends only on 'two or more'. The "
+                       "wrapper's and parser's non-interference is checked by formatting pairs of layouts of the same program that "
+                       "share comments and blank-line groups.",
+        "assumptions": ["WrapDeterministic and ParserKindsOnly are oracle-checked contracts (partial)"],
+    },
+    "C11": {
+        "level": "other",
+        "lean": ["PasfmtModel.Props.C11"],
+        "streams": [
+            {"stream": "fmt", "families": "seeds_sample,grammar,layout,marked", "quick": 2500, "thorough": 40000, "binding": ["out", "*"], "args": {"oracles": "c11"}},
+        ],
+        "oracle_prefixes": ["c11", "glue"],
+        "abnormal_binding": False,
+        "explanation": "Proved for the idealised optimiser (first minimum of base + overflow over any finite candidate list): a narrower "
+                       "limit whose optimum for the wider limit already fits has the same optimum (argmin_shrink); the overflow "
+                       "penalty is antitone in the limit and zero iff everything fits. That find_optimal_solution is such an optimiser "
+                       "is not a theorem (pruning and the iteration limit read max_line_length): the width-pair oracle checks the three "
+                       "clauses of the property on the real formatter for every well-formed case.",
+        "assumptions": ["the search heuristics are not modelled (partial)"],
     },
     "C04": {
         "level": "other",
